@@ -34,6 +34,16 @@ CHECKS = {
         'against scipy.special.erf on a grid each run. NaN-freedom at IEEE overflow scale is tested only.',
    technique='Lean 4 proof (real analysis of erf, list induction) + differential correspondence with the Float instance',
    design='5/C02'),
+ 'C09': dict(
+   text='Refinement proof for every history of batches (any sizes incl. 0, exact fits and several increments): the concrete store '
+        '(pre-allocated array, fill index, growth loop) represents exactly the non-zero candidates of all batches in order, each with its '
+        'own log-values and scale factor; the invariant is preserved across growth; tried count = sum of batch counts; all-zero histories '
+        'give the explicit empty result; without discard the output probabilities sum to one and stay paired with tensors; the discard rule '
+        'keeps exactly entries above max - log(discard n); sample-count-limited sampling stops at the first batch reaching the limit. Tie: '
+        'operation sequences against Sample (increments 1..7, one/two events, multi-row log-pdfs) and IterationSample vs the executable model.',
+   note=TB + 'Tensor columns and scale factors are opaque tokens. FileSample is not modelled.',
+   technique='Lean 4 refinement proof (abstraction function + invariant, induction over histories) + operation-sequence correspondence',
+   design='5/C09'),
  'C10': dict(
    text='Theorems over the reals for vectors of any length with any -inf pattern: log evidence denotes the mean likelihood over '
         'all N tried samples, -inf entries count only through N, shift and permutation laws; model probabilities are the softmax '
